@@ -67,6 +67,15 @@ fn run_direct(d: &dyn OpDriver, alts: &[usize]) -> Hop {
     Hop { calls: backend_calls(&log), cap1: cap.lock().unwrap().clone(), err, hang }
 }
 
+/// the same through virtual-hosted-style addressing under a host parser
+fn run_direct_vh(d: &dyn OpDriver, alts: &[usize]) -> Hop {
+    let (svc, log) = SvcCfg { host: sdk::host_mode(Addressing::VirtualHosted), ..Default::default() }.build();
+    let (proxy, cap) = sdk::proxy(svc, Addressing::VirtualHosted, true, None);
+    let res = block_on(async { tokio::time::timeout(std::time::Duration::from_secs(60), d.call(&proxy, alts)).await });
+    let (err, hang) = describe(&res);
+    Hop { calls: backend_calls(&log), cap1: cap.lock().unwrap().clone(), err, hang }
+}
+
 fn run_proxied(d: &dyn OpDriver, alts: &[usize]) -> Hop {
     let (svc2, log) = SvcCfg::default().build();
     let (proxy2, _cap2) = sdk::proxy(svc2, Addressing::Path, true, None);
@@ -132,10 +141,10 @@ fn forward(acc: &mut Acc, tier: Tier) -> serde_json::Value {
         a.eval();
         let order = (alts.len() as u64) << 40 | ci;
         let mut clean_direct = false;
-        for (cfg_name, hop) in [("direct", run_direct as fn(&dyn OpDriver, &[usize]) -> Hop), ("proxied", run_proxied)] {
-            if cfg_name == "proxied" && !clean_direct {
+        for (cfg_name, hop) in [("direct", run_direct as fn(&dyn OpDriver, &[usize]) -> Hop), ("virtual-hosted", run_direct_vh), ("proxied", run_proxied)] {
+            if cfg_name != "direct" && !clean_direct {
                 // the proxied configuration is judged where the direct one is clean (one defect, one report)
-                a.count("proxied runs skipped because the direct run already disagreed", 1);
+                a.count("virtual-hosted / proxied runs skipped because the direct run already disagreed", 1);
                 continue;
             }
             let h = hop(d, alts);
@@ -154,7 +163,7 @@ fn forward(acc: &mut Acc, tier: Tier) -> serde_json::Value {
             if ours.len() != 1 || h.calls.len() != 1 {
                 a.outcome(&format!("[{cfg_name}] INPUT NOT DELIVERED"));
                 let code = h.err.clone().unwrap_or_default().split(' ').next().unwrap_or("").to_owned();
-                let fp = format!("C02/{}valid-input-not-delivered/{}{}:{code}", if cfg_name == "proxied" { "proxied-only/" } else { "" }, d.name(), if lab.is_empty() { String::new() } else { format!(".{}", top_field(&lab)) });
+                let fp = format!("C02/{}valid-input-not-delivered/{}{}:{code}", if cfg_name != "direct" { format!("{cfg_name}-only/") } else { String::new() }, d.name(), if lab.is_empty() { String::new() } else { format!(".{}", top_field(&lab)) });
                 let wire = h.cap1.first().map(|c| c.req.describe()).unwrap_or_default();
                 a.fail(&fp, order, id(), format!("[{cfg_name}] the input the SDK encoded for {} ({lab}) was not handed to the backend exactly once: backend log {:?}, answer {:?}", d.name(), h.calls.iter().map(|c| c.op).collect::<Vec<_>>(), h.err), json!({"wire": wire, "body": h.cap1.first().and_then(|c| c.body.as_ref().map(|b| String::from_utf8_lossy(b).into_owned())), "generated": d.input_debug(alts)}));
                 continue;
@@ -210,7 +219,7 @@ fn forward(acc: &mut Acc, tier: Tier) -> serde_json::Value {
                     Ok(_) if wire_has => ("decode", "the member is on the wire of the SDK's request and the adapter handed the backend a different value".to_owned()),
                     Ok(_) => ("not-on-the-wire", "the conversion layer keeps the member but the proxy/SDK did not put it on the wire".to_owned()),
                 };
-                let fp = format!("C02/{}{layer}/{}.{f}", if cfg_name == "proxied" { "proxied-only/" } else { "" }, d.name());
+                let fp = format!("C02/{}{layer}/{}.{f}", if cfg_name != "direct" { format!("{cfg_name}-only/") } else { String::new() }, d.name());
                 a.fail(
                     &fp,
                     order,
@@ -230,6 +239,78 @@ fn forward(acc: &mut Acc, tier: Tier) -> serde_json::Value {
         }
     });
     json!({"forward_cases": n_cases})
+}
+
+// ------------------------------------------------------------------ the SDK's default configuration
+
+/// Uploads as a client with the SDK's *default* checksum behaviour sends them (a CRC32 of the payload as a trailer of an
+/// aws-chunked body), anonymous and authenticated: the backend must still receive exactly the client's bytes.
+fn sdk_defaults(acc: &mut Acc) -> usize {
+    let ds = driver::all();
+    let mut cases: Vec<(usize, Vec<usize>, bool)> = Vec::new();
+    for (di, d) in ds.iter().enumerate() {
+        if !matches!(d.name(), "PutObject" | "UploadPart") {
+            continue;
+        }
+        let labels = d.input_alt_labels();
+        for auth in [false, true] {
+            cases.push((di, vec![], auth));
+            for (i, l) in labels.iter().enumerate() {
+                if l.starts_with(".body") || l.starts_with(".checksum_algorithm") {
+                    cases.push((di, vec![i], auth));
+                }
+            }
+        }
+    }
+    let n = cases.len();
+    par_items(acc, &cases, |a, ci, (di, alts, auth)| {
+        let d = ds[*di].as_ref();
+        let labels = d.input_alt_labels();
+        let lab = alts.iter().map(|i| labels[*i].as_str()).collect::<Vec<_>>().join(" + ");
+        let id = || format!("sdkdefault/{}/{}/{lab}", d.name(), if *auth { "authenticated" } else { "anonymous" });
+        if !a.selected(&id) {
+            return;
+        }
+        a.eval();
+        let cfg = if *auth { SvcCfg::with_auth() } else { SvcCfg::default() };
+        let (svc, log) = cfg.build();
+        let (client, cap) = sdk::client_cfg(svc, Addressing::Path, !*auth, None, true);
+        let proxy = s3s_aws::Proxy::from(client);
+        let res = block_on(async { tokio::time::timeout(std::time::Duration::from_secs(60), d.call(&proxy, alts)).await });
+        let (err, hang) = describe(&res);
+        let cap = cap.lock().unwrap().clone();
+        if hang {
+            a.fail(&format!("C02/hang/{}", d.name()), ci, id(), "the call did not complete".into(), json!({}));
+            return;
+        }
+        let Some(c0) = cap.first() else {
+            a.outcome("not SDK-encodable (no request left the client)");
+            return;
+        };
+        let mode = c0.req.get_header("x-amz-content-sha256").unwrap_or_default();
+        a.nontrivial(fnv(id().as_bytes()));
+        let calls = backend_calls(&log);
+        let who = if *auth { "authenticated" } else { "anonymous" };
+        match calls.iter().find(|c| c.op == d.name()) {
+            None => {
+                a.outcome(&format!("[sdk-defaults/{who}] UPLOAD REFUSED"));
+                a.fail(&format!("C02/sdk-default-upload-refused/{who}/{mode}"), ci, id(), format!("the {} request the SDK sends by default (x-amz-content-sha256: {mode}) was not handed to the backend: {err:?}", d.name()), json!({"wire": c0.req.describe()}));
+            }
+            Some(rec) => match block_on(d.diff_input(alts, rec)) {
+                Ok(diff) if !diff.iter().any(|f| f == "body") => a.outcome(&format!("[sdk-defaults/{who}] the backend received the client's bytes (x-amz-content-sha256: {}, content-encoding: {:?})", if mode.len() == 64 { "<digest>" } else { mode.as_str() }, c0.req.get_header("content-encoding"))),
+                Ok(_) => {
+                    a.outcome(&format!("[sdk-defaults/{who}] BODY DIFFERS"));
+                    let got = rec.body.as_ref().map(|b| String::from_utf8_lossy(&b.bytes).chars().take(160).collect::<String>());
+                    a.fail(&format!("C02/sdk-default-upload-body-differs/{who}/{mode}"), ci, id(), format!("{}: the backend did not receive the client's bytes but {got:?} (x-amz-content-sha256: {mode})", d.name()), json!({"wire": c0.req.describe()}));
+                }
+                Err(e) => {
+                    a.outcome(&format!("[sdk-defaults/{who}] BODY STREAM FAILED"));
+                    a.fail(&format!("C02/sdk-default-upload-body-stream-failed/{who}/{mode}"), ci, id(), e, json!({"wire": c0.req.describe()}));
+                }
+            },
+        }
+    });
+    n
 }
 
 // ------------------------------------------------------------------ rejection half
@@ -457,12 +538,15 @@ fn reject(acc: &mut Acc, _tier: Tier) -> serde_json::Value {
 
 pub fn run(ctx: &Ctx) -> (Acc, Report) {
     let mut acc = ctx.acc();
-    let part = ctx.replay.as_deref().map(|r| if r.starts_with("fwd/") { "fwd" } else { "rej" });
+    let part = ctx.replay.as_deref().map(|r| if r.starts_with("fwd/") { "fwd" } else if r.starts_with("sdkdefault/") { "sdkdefault" } else { "rej" });
     let mut extra = serde_json::Map::new();
     if part.is_none_or(|p| p == "fwd") {
         if let serde_json::Value::Object(m) = forward(&mut acc, ctx.tier) {
             extra.extend(m);
         }
+    }
+    if ctx.replay.as_deref().is_none_or(|r| r.starts_with("sdkdefault/")) {
+        extra.insert("sdk_default_configuration_cases".into(), json!(sdk_defaults(&mut acc)));
     }
     if part.is_none_or(|p| p == "rej") {
         if let serde_json::Value::Object(m) = reject(&mut acc, ctx.tier) {
@@ -474,7 +558,7 @@ pub fn run(ctx: &Ctx) -> (Acc, Report) {
     let k = ctx.tier.pick(1, 2);
     let rep = Report {
         level: "exploration",
-        rule: format!("forward: 95 operations x (base() + every single deviation of every modelled input member over the alphabet of its wire position{}) x {{direct, proxied}}; each execution = aws-sdk-s3 encodes, the adapter decodes, the recording backend's typed input is compared field by field (streams by bytes) with the generated input. rejection: for every SDK-encoded request with each optional header/query/meta member present once: every instance of duplicate (same / other value, either order) of each single-valued member, a value outside the type of each typed member, removal of each required member, Content-Length +-1/0 and a short body for buffered bodies. Distinct = distinct recorded inputs / distinct mutants.", if k == 2 { " + every pair of deviations of different members" } else { "" }),
+        rule: format!("forward: 95 operations x (base() + every single deviation of every modelled input member over the alphabet of its wire position{}) x {{direct path-style, direct virtual-hosted-style under a host parser, proxied}}; each execution = aws-sdk-s3 encodes, the adapter decodes, the recording backend's typed input is compared field by field (streams by bytes) with the generated input. rejection: for every SDK-encoded request with each optional header/query/meta member present once: every instance of duplicate (same / other value, either order) of each single-valued member, a value outside the type of each typed member, removal of each required member, Content-Length +-1/0 and a short body for buffered bodies. Distinct = distinct recorded inputs / distinct mutants.", if k == 2 { " + every pair of deviations of different members" } else { "" }),
         exhaustive: true,
         extra: serde_json::Value::Object(extra),
         assumptions: vec![
